@@ -50,10 +50,26 @@ pub struct Ov2 {
     pub flag: bool,
 }
 
+/// fixed-size sequences (tuple, array) next to open-ended lists: a fixed-size sequence stops by
+/// itself after its last item, an open-ended one at the end of the parent
+#[derive(Serialize, Deserialize, PartialEq, Debug, Clone)]
+pub struct Ov3 {
+    pub p: (u16, u16),
+    #[serde(default)]
+    pub b: Vec<u16>,
+    #[serde(default)]
+    pub c: Vec<String>,
+    #[serde(default, skip_serializing_if = "Option::is_none")]
+    pub q: Option<[u8; 2]>,
+    #[serde(default, skip_serializing_if = "Option::is_none")]
+    pub t: Option<(String, u8, bool)>,
+}
+
 #[derive(Serialize, Deserialize, PartialEq, Debug, Clone)]
 pub enum OvVal {
     Ov(Ov),
     Ov2(Ov2),
+    Ov3(Ov3),
 }
 
 #[derive(Clone, Debug, Serialize, Deserialize, PartialEq)]
@@ -208,6 +224,7 @@ fn build(c: &Case) -> Option<Built> {
     let doc = match &c.value {
         OvVal::Ov(v) => ser(v, &plain).ok()?,
         OvVal::Ov2(v) => ser(v, &plain).ok()?,
+        OvVal::Ov3(v) => ser(v, &plain).ok()?,
     };
     let (open, units, close) = split_children(&doc)?;
     let mut nested_choices = c.nested_order.iter().copied();
@@ -256,6 +273,7 @@ fn de_with_limit(v: &OvVal, xml: &str, limit: Option<usize>, via_reader: bool) -
         return match v {
             OvVal::Ov(_) => Ov::deserialize(&mut de).map(OvVal::Ov),
             OvVal::Ov2(_) => Ov2::deserialize(&mut de).map(OvVal::Ov2),
+            OvVal::Ov3(_) => Ov3::deserialize(&mut de).map(OvVal::Ov3),
         };
     }
     let mut de = quick_xml::de::Deserializer::from_str(xml);
@@ -263,6 +281,7 @@ fn de_with_limit(v: &OvVal, xml: &str, limit: Option<usize>, via_reader: bool) -
     match v {
         OvVal::Ov(_) => Ov::deserialize(&mut de).map(OvVal::Ov),
         OvVal::Ov2(_) => Ov2::deserialize(&mut de).map(OvVal::Ov2),
+        OvVal::Ov3(_) => Ov3::deserialize(&mut de).map(OvVal::Ov3),
     }
 }
 
@@ -322,6 +341,9 @@ pub fn check(c: &Case) -> Verdict {
     if b.contiguous {
         v.classes.push("contiguous");
     }
+    if matches!(c.value, OvVal::Ov3(_)) {
+        v.classes.push("fixed-size-sequences-among-the-lists");
+    }
     v
 }
 
@@ -333,6 +355,8 @@ fn value_strategy(max: usize) -> impl Strategy<Value = OvVal> {
     prop_oneof![
         (any::<u8>(), prop::collection::vec(item(), 0..=max.min(3)), prop::collection::vec(elem_string(), 0..=max.min(3)), prop::collection::vec(any::<u8>(), 0..=max.min(3)), elem_string()).prop_map(|(n, a, b, c, s)| OvVal::Ov(Ov { n, a, b, c, s })),
         (prop::collection::vec(any::<u16>(), 0..=max.min(4)), prop::collection::vec((any_string(), elem_string()).prop_map(|(k, text)| OvLeaf { k, text }), 0..=max.min(4)), any::<bool>()).prop_map(|(x, y, flag)| OvVal::Ov2(Ov2 { x, y, flag })),
+        (any::<(u16, u16)>(), prop::collection::vec(any::<u16>(), 0..=max.min(3)), prop::collection::vec(elem_string().prop_filter("non-empty", |s| !s.is_empty()), 0..=max.min(3)), prop::option::weighted(0.4, any::<[u8; 2]>()), prop::option::weighted(0.3, (elem_string().prop_filter("non-empty", |s| !s.is_empty()), any::<u8>(), any::<bool>())))
+            .prop_map(|(p, b, c, q, t)| OvVal::Ov3(Ov3 { p, b, c, q, t })),
     ]
 }
 
@@ -376,6 +400,7 @@ fn run(ctx: &Ctx) {
             let doc = match v {
                 OvVal::Ov(x) => ser(x, &SerOpts::plain()),
                 OvVal::Ov2(x) => ser(x, &SerOpts::plain()),
+                OvVal::Ov3(x) => ser(x, &SerOpts::plain()),
             };
             doc.ok().and_then(|d| split_children(&d)).map_or(false, |(_, u, _)| u.len() >= 3 && u.len() <= 7)
         })
@@ -390,6 +415,7 @@ fn run(ctx: &Ctx) {
             let doc = match v {
                 OvVal::Ov(x) => ser(x, &SerOpts::plain()),
                 OvVal::Ov2(x) => ser(x, &SerOpts::plain()),
+                OvVal::Ov3(x) => ser(x, &SerOpts::plain()),
             }
             .unwrap();
             let (_, units, _) = split_children(&doc).unwrap();
